@@ -135,6 +135,7 @@ class C15(Prop):
         from ..scale import big_ops
         from ..core import Case
         case = Case(self, ctx, Config(backend="file", default_rule="domain"), None)
+        case.minimize = False
         try:
             twin = case.state["twin"]
             for op in big_ops(320 if tier == "quick" else 700):
